@@ -664,20 +664,52 @@ func checkEvalNeverNilSignal(p *Prog, l *Ledger) {
 					return true
 				}
 			}
+		case *ssa.UnOp:
+			// a field of a small local struct that carries the signal (settled{value, stop}): what the field holds here,
+			// path by path — stored values must qualify, the edge of a `!= nil` test on the field settles that edge
+			if fa, ok := x.X.(*ssa.FieldAddr); ok && x.Op == token.MUL {
+				if al, ok := fa.X.(*ssa.Alloc); ok && localStructOnly(al) {
+					return !localFieldMay(al, fa.Field, x.Block(), x, func(v ssa.Value, at *ssa.BasicBlock) bool {
+						return !check(v, at, map[ssa.Value]bool{})
+					}, map[*ssa.BasicBlock]bool{})
+				}
+			}
 		case *ssa.Call:
-			// `return nil, i.executeStatements(…)`: the signal is the single result of a helper
-			if g := x.Call.StaticCallee(); g != nil && g != ev && p.InModule(g) && g.Blocks != nil && !helperSeen[g] {
-				helperSeen[g] = true
-				defer delete(helperSeen, g)
-				all, any := true, false
-				instrsOf(g, func(in ssa.Instruction) {
-					if ret, ok := in.(*ssa.Return); ok && len(ret.Results) == 1 {
-						any = true
-						if !check(ret.Results[0], in.Block(), map[ssa.Value]bool{}) {
-							all = false
-						}
+			// `return nil, i.executeStatements(…)`: the signal is the single result of a helper — or of a function
+			// value the helper was handed (every function the call graph finds for the call must qualify)
+			var gs []*ssa.Function
+			if g := x.Call.StaticCallee(); g != nil {
+				gs = []*ssa.Function{g}
+			} else if !x.Call.IsInvoke() {
+				gs = p.Callees(x)
+			}
+			okAll := len(gs) > 0
+			for _, g := range gs {
+				if g == ev || !p.InModule(g) || g.Blocks == nil || helperSeen[g] {
+					okAll = false
+					break
+				}
+			}
+			if okAll {
+				for _, g := range gs {
+					helperSeen[g] = true
+				}
+				defer func() {
+					for _, g := range gs {
+						delete(helperSeen, g)
 					}
-				})
+				}()
+				all, any := true, false
+				for _, g := range gs {
+					instrsOf(g, func(in ssa.Instruction) {
+						if ret, ok := in.(*ssa.Return); ok && len(ret.Results) == 1 {
+							any = true
+							if !check(ret.Results[0], in.Block(), map[ssa.Value]bool{}) {
+								all = false
+							}
+						}
+					})
+				}
 				return all && any
 			}
 		case *ssa.Phi:
